@@ -71,6 +71,23 @@ Proof.
 Qed.
 Print Assumptions C14_order_refuted.
 
+(* open finding: a library forwarded both plain (by c) and as whole-archive (by y) is twice on the line,
+   the plain archive first; real ld pulls it in when needed and reports a multiple definition at the
+   whole-archive (ld_pass does not model duplicate definitions) *)
+Definition mproj : list pnode :=
+  [ wnode [] []; wnode [(0, false)] [0]; wnode [(0, true)] [0]; wnode [(1, false); (2, false)] [1; 2] ]%nat.
+Theorem C14_whole_plain_refuted : exists proj n L j,
+  wf_proj proj /\ p_final_libs false false proj true n false = Some L /\
+  In (enc_lib j VStatic) L /\ In (enc_lib j VWhole) L /\
+  (pos (enc_lib j VStatic) L < pos (enc_lib j VWhole) L)%nat.
+Proof.
+  exists mproj, 3%nat, [enc_lib 1 VStatic; enc_lib 2 VStatic; enc_lib 0 VStatic; enc_lib 0 VWhole], 0%nat. split.
+  - intros n d. do 4 (destruct n as [|n]; [cbn; intuition (subst; cbn; lia)|]).
+    cbn. destruct n; intros [].
+  - vm_compute. intuition (try discriminate; try lia).
+Qed.
+Print Assumptions C14_whole_plain_refuted.
+
 (* with last-occurrence de-duplication every forwarding library strictly precedes each library it
    depends on ... *)
 Theorem C14_order : forall deps fwd f user L x y,
